@@ -58,9 +58,23 @@ def is_unbordered_const(sep):
     return len(v) > 0 and not any(v[:k] == v[-k:] for k in range(1, len(v)))
 
 
+# positional arity (min, max) and keyword names each modelled method
+# understands; anything else is outside the subset (never silently ignored)
+_SIGS = {'find': (1, 2, ()), 'index': (1, 2, ()),
+         'startswith': (1, 1, ()), 'endswith': (1, 1, ()),
+         'replace': (2, 2, ()), 'strip': (0, 0, ()), 'split': (1, 2, ()),
+         'join': (1, 1, ()), 'encode': (0, 1, ()),
+         'decode': (0, 2, ('errors',))}
+
+
 def str_method(it, recv, name, args, kwargs):
     ctx = it.ctx
     e = recv.e
+    sig = _SIGS.get(name)
+    if sig is not None and not (
+            sig[0] <= len(args) <= sig[1] and set(kwargs) <= set(sig[2])):
+        raise Unsupported('%s.%s with %d positional / %s keyword arguments'
+                          % (recv.tname, name, len(args), sorted(kwargs)))
     if name == 'find' or name == 'index':
         sub = _arg_str(it, recv, args[0])
         start = as_int(args[1]) if len(args) > 1 else z3.IntVal(0)
